@@ -145,26 +145,33 @@ theorem C16_cte_shadow_witness :
       sel ++ [from_ "cpu" true, .tok (.p ')'), .tok sp, .tok (.w (S "s"))]
     prep (flat q) = flat q ∧ rewrite none (flat q) ≠ unmask (specFlat none q) := by decide
 
-/-- quoted CTE definition, bare reference: the registry holds the placeholder, the reference is rewritten. -/
-theorem C16_cte_quoted_witness :
+/-- fixed by /repo 73763cd (history: the registry held only the placeholder of a quoted CTE definition and the bare
+reference was rewritten): the unquoted name is registered too. -/
+theorem C16_cte_quoted_fixed :
     let q := tk [.w (S "WITH"), sp, .q (S "\"agg\""), sp, .w (S "AS"), sp, .p '(', .w (S "SELECT"), sp, .n (S "1"), .p ')', sp] ++
       sel ++ [from_ "agg" true]
-    prep (flat q) = flat q ∧ rewrite none (flat q) ≠ unmask (specFlat none q) := by decide
+    prep (flat q) = flat q ∧ Carve none q = true ∧ rewrite none (flat q) = unmask (specFlat none q) := by decide
 
-/-- the text `read_parquet` inside a literal switches the whole rewrite off. -/
-theorem C16_rp_text_witness :
+/-- fixed by /repo 56228b9 (history: the text `read_parquet` anywhere switched the whole rewrite off): only a real
+call short-circuits. -/
+theorem C16_rp_text_fixed :
     let q := sel ++ [from_ "cpu", .tok sp] ++ tk [.w (S "WHERE"), sp, .w (S "host"), sp, .p '=', sp, .l (S "'read_parquet'")]
-    prep (flat q) = flat q ∧ rewrite none (flat q) = flat q ∧ rewrite none (flat q) ≠ unmask (specFlat none q) := by decide
+    prep (flat q) = flat q ∧ shortCircuit (flat q) = false ∧ Carve none q = true ∧
+      rewrite none (flat q) = unmask (specFlat none q) := by decide
 
-/-- header, JOIN followed by a newline: exactly one "from ", one FROM reference, no " join " in the text, so the
-single-table fast path is taken and the joined measurement is left unrewritten (still true after /repo 53c9b19,
-which closed the variants with a second FROM). -/
+/-- header, comma join through the single-table fast path: one "from ", one FROM reference, no JOIN word — the fast
+path rewrites the first table and the second one (a base table) is never reached. (The JOIN-on-a-new-line variant
+is fixed by /repo d4e5686.) -/
 theorem C16_fastpath_partial_witness :
-    let q := tk [.w (S "SELECT"), sp, .w (S "a"), .p '.', .w (S "rid"), sp] ++ [from_ "cpu", .tok sp, .tok (.w (S "a")), .tok (.s ['\n']),
-      .ref ⟨[], none, S "JOIN", true, ['\n'], none, .bare (S "mem"), false⟩] ++
-      tk [sp, .w (S "b"), sp, .w (S "ON"), sp, .w (S "a"), .p '.', .w (S "host"), .p '=', .w (S "b"), .p '.', .w (S "host")]
+    let q := sel ++ [from_ "cpu", .tok sp, .tok (.w (S "a")), .commaRef [' '] (.bare (S "mem")) false, .tok sp, .tok (.w (S "b"))]
     prep (flat q) = flat q ∧ fastEligible (flat q) = true ∧
       rewrite (some (S "prod")) (flat q) ≠ unmask (specFlat (some (S "prod")) q) := by decide
+
+/-- fixed by /repo d4e5686: JOIN followed by a newline no longer takes the fast path -/
+example :
+    let q := tk [.w (S "SELECT"), sp, .w (S "a"), .p '.', .w (S "rid"), sp] ++ [from_ "cpu", .tok sp, .tok (.w (S "a")), .tok (.s ['\n']),
+      .ref ⟨[], none, S "JOIN", true, ['\n'], none, .bare (S "mem"), false⟩] ++ tk [sp, .w (S "b")]
+    fastEligible (flat q) = false ∧ rewrite (some (S "prod")) (flat q) = unmask (specFlat (some (S "prod")) q) := by decide
 
 /-- fixed by /repo 53c9b19: a second FROM reference (sub-query, UNION) now sends the statement to the regex path -/
 example :
@@ -173,21 +180,19 @@ example :
       [from_ "mem", .tok (.p ')')]
     fastEligible (flat q) = false ∧ rewrite (some (S "prod")) (flat q) = unmask (specFlat (some (S "prod")) q) := by decide
 
-/-- header, `FROM` + blank + CR LF + name: the fast path skips blanks, tabs and LF but not CR, finds no name and
-returns the statement unchanged. -/
-theorem C16_fastpath_cr_witness :
+/-- fixed by /repo 002a8ca (history: the fast path did not skip CR after `from `, found no name and returned the
+statement unchanged). -/
+theorem C16_fastpath_cr_fixed :
     let q := tk [.w (S "SELECT"), sp, .w (S "rid"), sp] ++ [.ref ⟨[], none, S "FROM", false, S " \r\n", none, .bare (S "cpu"), false⟩]
-    prep (flat q) = flat q ∧ fastEligible (flat q) = true ∧ rewrite (some (S "prod")) (flat q) = flat q ∧
-      rewrite (some (S "prod")) (flat q) ≠ unmask (specFlat (some (S "prod")) q) := by decide
+    prep (flat q) = flat q ∧ fastEligible (flat q) = true ∧
+      rewrite (some (S "prod")) (flat q) = unmask (specFlat (some (S "prod")) q) := by decide
 
-/-- header, table function after the only "from ": the fast path has no call guard (isDotOrCallAt is only
-consulted by the regex passes), `range` becomes a measurement. -/
-theorem C16_tablefunc_fast_witness :
+/-- fixed by /repo 7134395 (history: the fast path had no call guard and turned `range` into a measurement). -/
+theorem C16_tablefunc_fast_fixed :
     let q := tk [.w (S "SELECT"), sp, .w (S "g"), sp, .w (S "FROM"), sp, .w (S "range"), .p '(', .n (S "1"), .p ',', sp, .n (S "3"), .p ')',
       sp, .w (S "t"), .p '(', .w (S "g"), .p ')']
     prep (flat q) = flat q ∧ fastEligible (flat q) = true ∧ baseTableRefs q = [] ∧
-      rewrite (some (S "prod")) (flat q) ≠ unmask (specFlat (some (S "prod")) q) ∧
-      rewrite none (flat q) = unmask (specFlat none q) := by decide
+      rewrite (some (S "prod")) (flat q) = unmask (specFlat (some (S "prod")) q) := by decide
 
 /-- fixed by /repo 04fa395 (the header path always extracts the CTE names): `WITH` + newline no longer leaves the
 registry empty; the statement that used to be the witness is now rewritten exactly. -/
@@ -197,16 +202,17 @@ theorem C16_with_newline_fixed :
     prep (flat q) = flat q ∧ Carve (some (S "prod")) q = true ∧
       rewrite (some (S "prod")) (flat q) = unmask (specFlat (some (S "prod")) q) := by decide
 
-/-- `JOIN LATERAL` + newline + `(`: isDotOrCallAt skips blanks and tabs only, LATERAL becomes a table. -/
-theorem C16_lateral_newline_witness :
+/-- fixed by /repo 00bd721 (history: isDotOrCallAt skipped blanks and tabs only, LATERAL + newline + `(` became a
+table). -/
+theorem C16_lateral_newline_fixed :
     let q := sel ++ [from_ "cpu", .tok sp, .tok (.w (S "a")), .tok sp] ++
       tk [.w (S "JOIN"), sp, .w (S "LATERAL"), .s ['\n'], .p '(', .w (S "SELECT"), sp, .n (S "1"), .p ')', sp, .w (S "b")]
-    prep (flat q) = flat q ∧ rewrite none (flat q) ≠ unmask (specFlat none q) := by decide
+    prep (flat q) = flat q ∧ rewrite none (flat q) = unmask (specFlat none q) := by decide
 
-/-- a block comment that closes one byte before the end of the text swallows that byte (`LIMIT /* c */9`). -/
-theorem C16_comment_last_byte_witness :
+/-- fixed by /repo 168cceb (history: a block comment closing one byte before the end swallowed that byte). -/
+theorem C16_comment_last_byte_fixed :
     let ts : List Tok := [.w (S "SELECT"), sp, .n (S "1"), sp, .w (S "LIMIT"), sp, .b (S "/* c */"), .n (S "9")]
-    String.ofList (render (prep ts)) = "SELECT 1 LIMIT  " := by decide
+    String.ofList (render (prep ts)) = "SELECT 1 LIMIT  9" := by decide
 
 -- ================================================================ header-only single-table fast path
 theorem fastGo_skip (h : Str) (t : Tok) (rest : List Tok) (hn : endsWith (lower t.text) "from".toList = false) :
@@ -228,7 +234,7 @@ theorem fastGo_skip (h : Str) (t : Tok) (rest : List Tok) (hn : endsWith (lower 
 theorem fastGo_site (h : Str) (pre post : List Tok) (kw gap name : Str)
     (hpre : ∀ t ∈ pre, endsWith (lower t.text) "from".toList = false)
     (hkw : lower kw = ['f', 'r', 'o', 'm'])
-    (hgap : (gap.dropWhile fun c => c == ' ' || c == '\t' || c == '\n').isEmpty = true)
+    (hgap : (gap.dropWhile blank4).isEmpty = true) (hpost : dotOrCall post = false)
     (hskip : shouldSkip (lower name) = false) :
     fastGo h (pre ++ (.w kw :: .s (' ' :: gap) :: .w name :: post)) = some (pre ++ (.rpF h name :: post)) := by
   have hlen : kw.length = 4 := by
@@ -237,7 +243,7 @@ theorem fastGo_site (h : Str) (pre post : List Tok) (kw gap name : Str)
   induction pre with
   | nil =>
     have he : endsWith (lower kw) ['f', 'r', 'o', 'm'] = true := by rw [hkw]; decide
-    simp [fastGo, Tok.text, he, hgap, identRun, hskip, hlen]
+    simp [fastGo, Tok.text, he, hgap, hpost, identRun, hskip, hlen]
   | cons t pre ih =>
     have := ih (fun x hx => hpre x (by simp [hx]))
     simp only [List.cons_append]
@@ -257,12 +263,12 @@ theorem C16_fast_partial (h : Str) (pre post : List Tok) (kw gap name : Str)
     (hfe : fastEligible (pre ++ (.w kw :: .s (' ' :: gap) :: .w name :: post)) = true)
     (hpre : ∀ t ∈ pre, endsWith (lower t.text) "from".toList = false)
     (hkw : lower kw = "from".toList)
-    (hgap : (gap.dropWhile fun c => c == ' ' || c == '\t' || c == '\n').isEmpty = true)
+    (hgap : (gap.dropWhile blank4).isEmpty = true) (hpost : dotOrCall post = false)
     (hskip : shouldSkip (lower name) = false) :
     rewrite (some h) (pre ++ (.w kw :: .s (' ' :: gap) :: .w name :: post)) =
       flat (mapRefs (some h) (pre.map Item.tok ++
         (.ref ⟨[], none, kw, false, ' ' :: gap, none, .bare name, false⟩ :: post.map Item.tok))) := by
-  have hgo := fastGo_site h pre post kw gap name hpre hkw hgap hskip
+  have hgo := fastGo_site h pre post kw gap name hpre hkw hgap hpost hskip
   have hflat : flat (mapRefs (some h) (pre.map Item.tok ++
       (.ref ⟨[], none, kw, false, ' ' :: gap, none, .bare name, false⟩ :: post.map Item.tok))) =
       pre ++ (.rpF h name :: post) := by
@@ -352,8 +358,13 @@ theorem C16_facts_tied :
     Arc.Generated.C16.cacheKeySep.toList = ['\x00'] ∧
     Arc.Generated.C16.cacheKeyShape = "headerDB+sep+sql" ∧
     Arc.Generated.C16.shortCircuitLits = ["read_parquet", "from", "join"] ∧
-    Arc.Generated.C16.singleTableLits = ["from ", " join ", " \t\n", "from "] ∧
-    Arc.Generated.C16.dotOrCallTrim = " \t" ∧
+    Arc.Generated.C16.patternJoinWord = "\\bjoin\\b" ∧
+    Arc.Generated.C16.patternReadParquetCall = "(?i)\\bread_parquet\\s*\\(" ∧
+    Arc.Generated.C16.singleTableLits = ["from ", "patternJoinWord", " \t\r\n", "from "] ∧
+    Arc.Generated.C16.dotOrCallTrim = " \t\r\n" ∧
+    Arc.Generated.C16.fastPathCallGuard = true ∧
+    Arc.Generated.C16.quotedCteRegistered = true ∧
+    Arc.Generated.C16.readParquetShortCircuitNeedsCall = true ∧
     Arc.Generated.C16.singleTableGuards = ["FindAllStringIndex", "extractCTENames"] ∧
     Arc.Generated.C16.headerCteAlways = true ∧
     Arc.Generated.C16.slowPassOrder = ["patternDBTable:all", "patternJoinDBTable:all",
